@@ -217,6 +217,10 @@ class World:
         for n in self.nodes:
             if getattr(reg, "lut", None) is n.reg.lut:
                 return n.id  # a shallow copy: same node by documented construction
+        if reg is _U()[4].default_unit_registry:
+            # the default registry is node 0 in every world, also in a cold world that was not sent node 0
+            # (degC - degC of a custom registry returns the module-level delta_degC, bound to the default one)
+            return 0
         return "other"
 
     def probe(self, name, n=1):
